@@ -269,6 +269,11 @@ fn one_case(ctx: &Ctx, case: u64, l: &mut Local) {
             // non-ASCII / invisible / control characters: two random ones per position, all at borders
             {
                 let mut odd: Vec<(char, bool)> = vec![(*r.pick(&tamper::ODD_CHARS), false), (*r.pick(&tamper::ODD_CHARS), true)];
+                // the character's own look-alike: its Unicode FULLWIDTH form (U+FF01..U+FF5E), and for
+                // letters the same letter in the other case is covered by the alphabet above
+                if let Some(c) = text.as_bytes().get(pos).copied().filter(|b| (0x21..=0x7e).contains(b)).and_then(|b| char::from_u32(b as u32 + 0xFEE0)) {
+                    odd.push((c, true));
+                }
                 if at_border {
                     odd.extend(tamper::ODD_CHARS.iter().map(|c| (*c, false)));
                 }
@@ -959,7 +964,7 @@ fn one_case(ctx: &Ctx, case: u64, l: &mut Local) {
     // ---- Compact only: the whole presentation inside a wrapper (quotes, brackets, a scheme prefix)
     if fmt == Fmt::Compact {
         let whole = t.parts.to_compact();
-        for (pre, post) in [("\"", "\""), ("'", "'"), ("<", ">"), ("(", ")"), ("[", "]"), ("{", "}"), ("`", "`"), ("Bearer ", ""), ("\"", ""), ("jwt:", ""), ("\u{feff}", "")] {
+        for (pre, post) in [("\"", "\""), ("'", "'"), ("<", ">"), ("(", ")"), ("[", "]"), ("{", "}"), ("`", "`"), ("Bearer ", ""), ("DPoP ", ""), ("bearer  ", ""), ("Basic ", ""), ("\"", ""), ("jwt:", ""), ("\u{feff}", "")] {
             // (a suffix alone lands in the key-binding slot behind the last '~', which is not part of
             // the issuer-signed JWT and is ignored when no key binding is requested: not a fault here)
             let text = format!("{pre}{whole}{post}");
